@@ -38,6 +38,18 @@ func ctxFor(engine string, raw json.RawMessage) engineCtx {
 			bad(err)
 		}
 		return newMergeCtx(&wl)
+	case "puresim":
+		var wl wlPure
+		if err := json.Unmarshal(raw, &wl); err != nil {
+			bad(err)
+		}
+		return newPureCtx(&wl)
+	case "rendersim":
+		var wl wlRender
+		if err := json.Unmarshal(raw, &wl); err != nil {
+			bad(err)
+		}
+		return newRenderCtx(&wl)
 	}
 	fmt.Fprintln(os.Stderr, "worker: unknown engine", engine)
 	os.Exit(2)
@@ -61,6 +73,10 @@ func engineCandidates(engine string, raw json.RawMessage) []json.RawMessage {
 		return out
 	case "mergesim":
 		return mergeCandidates(raw)
+	case "puresim":
+		return pureCandidates(raw)
+	case "rendersim":
+		return renderCandidates(raw)
 	}
 	return nil
 }
@@ -81,6 +97,16 @@ func engineDescribe(engine string, raw json.RawMessage) string {
 		var wl wlMerge
 		if json.Unmarshal(raw, &wl) == nil {
 			return wl.describe()
+		}
+	case "puresim":
+		var wl wlPure
+		if json.Unmarshal(raw, &wl) == nil {
+			return wl.describe()
+		}
+	case "rendersim":
+		var wl wlRender
+		if json.Unmarshal(raw, &wl) == nil && wl.Model != nil {
+			return describeRender(&wl)
 		}
 	}
 	return ""
